@@ -21,7 +21,7 @@ def run(tier, seed):
     def make(configs, clauses, extra, observe=None):
         return None
     return opscheck.run_property(
-        "C17", tier, seed, design=opscheck.design_ops("C17", None), clauses_for=clauses_for, n_quick=6, n_thorough=60,
+        "C17", tier, seed, design=opscheck.design_ops("C17", None), clauses_for=clauses_for, n_quick=10, n_thorough=100,
         gen_kw=[{}, {"nmax": 2}], generator=scaledrive.gen, observe=scaledrive.observe,
         rule="9 grid classes x seeded configurations x (L,T,K) drawn from {1/10,1/2,2,3,10}^3: every builder output, the "
              "ghost values, the cell volumes and the solvePDE result (inverse formulation) of the rescaled configuration "
